@@ -34,12 +34,16 @@ def run(tier, seed):
     for t in ("mean", "variance", "skewness", "kurtosis"):
         job.add(Harness("par_%s_wiring" % t, "C19.%s.par_collect_each_item_once" % t.capitalize(),
                         "impl_from_par_iterator!(%s)" % t.capitalize(), bounded=BOUND))
+    job.append(kjobs.LIB, '\n#[cfg(kani)]\nmod vm4 {\n    crate::define_moments!(M, 4);\n    mod verif_kani {\n        #![allow(unused)]\n'
+                          '        use super::*;\n        include!("%s");\n    }\n}\n' % os.path.join(KDIR, "moments_n.rs"))
+    job.add(Harness("vm4::verif_kani::par_n::mn_par_wiring", "C19.Moments4.par_collect_each_item_once",
+                    "impl_from_par_iterator!(define_moments! type)", bounded=BOUND))
     obs = job.run()
     obs += vl.run_lemmas("C19", ["merge_tree", "concat", "tree_equals"])
     meta = {
         "level": "other",
         "checker_cmd": "cargo kani --features std,rayon with rayon replaced by contracts/rayon_stub (specification stub); verus history.rs",
-        "functions_under_contract": ["impl_from_par_iterator! expansions (FromParallelIterator<f64> and <&f64>) for Mean, Variance, Skewness, Kurtosis, Min, Max"],
+        "functions_under_contract": ["impl_from_par_iterator! expansions (FromParallelIterator<f64> and <&f64>) for Mean, Variance, Skewness, Kurtosis, Min, Max, define_moments!(_, 4)"],
         "source_files": ["src/macros.rs", "src/moments/mod.rs", "src/minmax.rs", "Cargo.toml"],
         "extraction": "Kani compiles the crate with feature rayon; the optional rayon dependency of the scratch copy is redirected to a specification stub",
         "trusted_base": ["A-RAYON: rayon's fold/reduce returns g-combinations, in order, of f-folds of contiguous chunks with identity results inserted anywhere (its documented contract), made executable in contracts/rayon_stub",
@@ -47,7 +51,7 @@ def run(tier, seed):
         "assumptions": ["NOT decided: real threads, work stealing, thread counts, data races (Kani has no threads; Verus would need its permission types throughout rayon); data-race freedom is what forbid(unsafe_code) plus rayon's Send bounds give and is trusted",
                         "bounded: " + BOUND + " - listed under `bounded`, never counted as proved",
                         "under A-RAYON the statement reduces to C02 + C11 + C14 through the merge-tree lemma with empty leaves: every chunking and bracketing, hence every thread count, split granularity and steal order",
-                        "define_moments! types use the same macro expansion (impl_from_par_iterator!($name)); not instantiated in this run"],
+                        "define_moments! types: instantiated for N = 4 (the wiring does not depend on N)"],
         "explanation": "Wiring of impl_from_par_iterator! (identity = new, fold = add, reduce = merge in order, both f64 and &f64) against an executable "
                        "specification of rayon's fold/reduce: every item is absorbed exactly once for every split and bracketing (multiset recorder), Min/Max exact. "
                        "Bounded in the number of items/chunks; the unbounded claim over chunkings is the Verus lemma plus C02/C11/C14.",
